@@ -235,6 +235,16 @@ def run(ctx):
     stag = [plain_prog('fn quick(id: int) { println("quick", id); }\nfn slow(id: int, t: float) { time.sleep(t); println("slow", id); }\n'
                        'fn main() { spawn quick(1); spawn slow(2, 0.06); time.sleep(0.03); spawn slow(3, 0.12); println("main done"); }\n',
                        ["quick 1", "slow 2", "slow 3", "main done"], 4)]
+    # every shape of argument is passed BY VALUE (option payloads, nested lists, lists inside objects): the spawner's later
+    # mutations are invisible to the worker (which prints after a delay) and the worker's to the spawner
+    stag.append(plain_prog(
+        'fn w(id: int, o: ?[int], n: [[int]], ob: { l: [int], q: ?[int] }) { time.sleep(0.05); println("w", id, o, n, ob.l, ob.q);\n'
+        '  o.unwrap().push(7); n[0].push(7); ob.l.push(7); ob.q.unwrap().push(7); println("w own", id, o, n[0].len(), ob.l.len(), ob.q); }\n'
+        'fn main() { let o: ?[int] = ?[1, 2]; let n = [[1], [2]]; let ob = new { l: [5], q: ?[6] };\n'
+        '  spawn w(1, o, n, ob); o.unwrap().push(100); n[0].push(100); ob.l.push(100); ob.q.unwrap().push(100);\n'
+        '  time.sleep(0.1); println("m", o, n, ob.l, ob.q); }\n',
+        ["w 1 Some([1, 2]) [[1], [2]] [5] Some([6])", "w own 1 Some([1, 2, 7]) 2 2 Some([6, 7])",
+         "m Some([1, 2, 100]) [[1, 100], [2]] [5, 100] Some([6, 100])"], 2))
     stag += [H.gen_spawn_staggered(rng) for _ in range(6 if ctx.tier == "quick" else 40)]
     run_batch(ctx, stag, "C17 staggered", False, 2 if ctx.tier == "quick" else 3, race=race)
     ctx.coverage["staggered_programs"] = len(stag)
